@@ -17,7 +17,7 @@ PROPERTY = 'C17'
 LEVEL = 'fault_enumeration'
 RULE = ('programs {finite facts, deep structural recursion over lists and Peano numbers, left recursion, mutual recursion, '
         'infinitely many answers of growing depth, answers before a deep branch, findall/once around recursion} x EVERY '
-        'recursion limit of a contiguous range (quick 60..260, thorough 60..460) plus selected limits up to 1000, so the '
+        'recursion limit of a contiguous range (quick 60..200, thorough 60..460) plus selected limits up to 1000, so the '
         'strike point sweeps over every kind of frame x projection functions raising at answer k (k<=6) with a custom '
         'exception / RuntimeError / StopIteration / KeyboardInterrupt / not at all x generator passed inline or also held '
         'by the caller and closed afterwards. Each case runs in its own forked child (the limit is process-global). '
@@ -88,7 +88,7 @@ FAULTS = [None] + [(k, e) for k in (1, 2, 3, 6) for e in ('Custom', 'RuntimeErro
 
 
 def limits(tier):
-    hi = 260 if tier == 'quick' else 460
+    hi = 200 if tier == 'quick' else 460
     return list(range(60, hi + 1)) + [500, 600, 700, 800, 900, 1000]
 
 
@@ -106,7 +106,7 @@ def space(tier):
 def plan(tier, seed):
     n = space(tier)
     if tier == 'quick':
-        return {'n': n, 'deadline': 55, 'case_timeout': 60,
+        return {'n': n, 'deadline': 150, 'case_timeout': 60,
                 'floor': {'distinct_nontrivial': 1500, 'forked_children': 250, 'cases': 3000, 'limit_struck': 800, 'projection_faults': 1500,
                           'complete_results_confirmed': 500, 'setrecursionlimit_calls_seen': 6000, 'variables_checked': 3000}}
     return {'n': n, 'deadline': 560, 'case_timeout': 60,
@@ -115,7 +115,7 @@ def plan(tier, seed):
 
 
 def EXHAUSTIVE(tier):
-    return {'programs': len(progs()), 'limits': len(limits(tier)), 'contiguous_limit_range': [60, 260 if tier == 'quick' else 460],
+    return {'programs': len(progs()), 'limits': len(limits(tier)), 'contiguous_limit_range': [60, 200 if tier == 'quick' else 460],
             'cases': len(progs()) * len(limits(tier)), 'note': 'every (program, limit) pair; fault and hold mode chosen per pair from the seed'}
 
 
